@@ -118,6 +118,14 @@ pub fn replay(cases: &str, verdicts: &str) {
             xs.swap(n - 2, n - 1);
             let g = guard(|| interp1d_linear(&xs, &y, &[t], ExtrapolationMode::Extrapolate).to_vec());
             v.check(g.is_none(), "checked", "unsorted-last-pair", &c, json!(g.as_ref().map(|r| fjs(r))));
+            // ... at any scale of the axis (descending by 2^-70 is descending), and when only one ulp out of order
+            let xt: Vec<f64> = xs.iter().map(|a| a * 2f64.powi(-70)).collect();
+            let g = guard(|| interp1d_linear(&xt, &y, &[t * 2f64.powi(-70)], ExtrapolationMode::Extrapolate).to_vec());
+            v.check(g.is_none(), "checked", "unsorted-last-pair tiny-axis", &c, json!(g.as_ref().map(|r| fjs(r))));
+            let mut xu = x.clone();
+            xu[n - 1] = next_down(xu[n - 2]);
+            let g = guard(|| interp1d_linear(&xu, &y, &[t], ExtrapolationMode::Extrapolate).to_vec());
+            v.check(g.is_none(), "checked", "last-pair one-ulp-descending", &c, json!(g.as_ref().map(|r| fjs(r))));
             let mut xs = x.clone();
             xs.swap(0, 1);
             let g = guard(|| interp1d_linear(&xs, &y, &[t], ExtrapolationMode::Extrapolate).to_vec());
